@@ -214,7 +214,12 @@ def mutate(spec, rnd):
         path = rnd.choice(ps)
         node = get_at(spec, path)
         t = node[0]
-        if t == 'int':
+        if t in ('int', 'str') and node in pg.MIXIN_VALUE.values() and rnd.random() < 0.5:
+            # bare value -> a mixin enum member that is an instance of it (and == it)
+            m, q, x = rnd.choice(sorted(k for k, v in pg.MIXIN_VALUE.items() if v == node))
+            new = ['enum', m, q, x]
+            kind = 'enum-mixin'
+        elif t == 'int':
             new = rnd.choice([['bool', bool(node[1])], ['float', pg.float_token(float(node[1]))] if abs(node[1]) < 2 ** 53 else ['str', str(node[1])],
                               ['str', str(node[1])], ['int', node[1] + 1]])
             kind = 'scalar'
@@ -230,6 +235,12 @@ def mutate(spec, rnd):
         elif t == 'none':
             new = rnd.choice([['str', 'None'], ['str', 'null'], ['bool', False], ['int', 0], ['tuple', []]])
             kind = 'scalar'
+        elif t == 'enum' and tuple(node[1:]) in pg.MIXIN_VALUE and rnd.random() < 0.7:
+            # mixin enum member -> its bare value, or the same-valued member of another mixin enum
+            bare = pg.MIXIN_VALUE[tuple(node[1:])]
+            others = [['enum', m, q, x] for (m, q, x), v in sorted(pg.MIXIN_VALUE.items()) if v == bare and (m, q, x) != tuple(node[1:])]
+            new = rnd.choice([bare] + others)
+            kind = 'enum-mixin'
         elif t == 'enum':
             mod, qual, mem = node[1:]
             cands = [['enum', m, q, x] for (m, q), ms in pg.ENUM_TYPES.items() for x in ms if (m, q, x) != (mod, qual, mem)
@@ -302,12 +313,79 @@ def shrink_pair(a, b, bad, budget=120):
     return a, b
 
 
+def mixin_groups():
+    """constructor calls whose parameter is a mixin enum member, its bare value, or a same-valued member of
+    another mixin enum — directly, in a list and in a dict: all different tasks for labtech"""
+    out = []
+    values = {}
+    for k, v in sorted(pg.MIXIN_VALUE.items()):
+        values.setdefault(json.dumps(v), [v]).append(['enum'] + list(k))
+    for (mod, qual, field) in (('ptasks', 'Exp', 'p'), ('ptasks2', 'Leaf', 'x'), ('ptasks', 'AltT', 'p')):
+        for alts in values.values():
+            for wrap in (lambda x: x, lambda x: ['list', [x, ['none']]], lambda x: ['dict', [[['k', 'k'], x]]]):
+                out.append([['task', mod, qual, [[field, wrap(a)]]] for a in alts])
+    return out
+
+
+def pyeq_respell(spec, rnd, order_only=False):
+    """a constructor call whose parameters are Python-equal (==, same hash) to `spec`'s but spelled
+    differently for JSON: dict items in another insertion order at every depth and, unless `order_only`,
+    numerically equal scalars of another type (0/False/0.0/-0.0, 1/True/1.0, n/n.0) and mixin enum members
+    vs their bare value"""
+    t = spec[0]
+    if t in ('list', 'tuple'):
+        return [t, [pyeq_respell(s, rnd, order_only) for s in spec[1]]]
+    if t in ('dict', 'fdict'):
+        items = [[k, pyeq_respell(s, rnd, order_only)] for k, s in spec[1]]
+        rnd.shuffle(items)
+        return [t, items]
+    if t == 'task':
+        return ['task', spec[1], spec[2], [[f, pyeq_respell(s, rnd, order_only)] for f, s in spec[3]]]
+    if order_only:
+        return spec
+
+    def numeric(v):
+        c = [['int', v]]
+        if v in (0, 1):
+            c += [['bool', bool(v)], ['float', '%d.0' % v]] + ([['float', '-0.0']] if v == 0 else [])
+            c += [['enum', m, q, x] for (m, q, x), b in sorted(pg.MIXIN_VALUE.items()) if b == ['int', v]]
+        elif abs(v) < 2 ** 53:
+            c.append(['float', pg.float_token(float(v))])
+        return c
+    if t == 'int':
+        return rnd.choice(numeric(spec[1]))
+    if t == 'bool':
+        return rnd.choice(numeric(int(spec[1])))
+    if t == 'float':
+        x = float(spec[1])
+        if x == x and abs(x) < 2 ** 53 and x == int(x):
+            return rnd.choice(numeric(int(x)) + [spec])
+        return spec
+    if t == 'str':
+        return rnd.choice([spec] + [['enum', m, q, x] for (m, q, x), b in sorted(pg.MIXIN_VALUE.items()) if b == spec])
+    if t == 'enum' and tuple(spec[1:]) in pg.MIXIN_VALUE:
+        bare = pg.MIXIN_VALUE[tuple(spec[1:])]
+        return rnd.choice([spec, bare] + [['enum', m, q, x] for (m, q, x), b in sorted(pg.MIXIN_VALUE.items()) if b == bare])
+    return spec
+
+
+def ser_truthy(v):
+    """truthiness of the *serialised* form of a parameter value, which is what the deserialiser's
+    `serialized.get('_is_task', False)` test sees: an enum member or a task serialises to a non-empty
+    dict (truthy even for `IntEnum` members whose own value is 0)"""
+    from enum import Enum
+    from labtech.types import is_task
+    if isinstance(v, Enum) or is_task(v):
+        return True
+    return bool(v)
+
+
 def flagged_dict_inside(obj):
     """does the real value contain a dict parameter with a truthy `_is_task` / `_is_enum` entry
     (the input class of known finding F07)?"""
     from labtech.types import is_task
     if isinstance(obj, (dict, frozendict)):
-        if bool(obj.get('_is_task', False)) or bool(obj.get('_is_enum', False)):
+        if ser_truthy(obj.get('_is_task', False)) or ser_truthy(obj.get('_is_enum', False)):
             return True
         return any(flagged_dict_inside(v) for v in obj.values())
     if isinstance(obj, (list, tuple)):
